@@ -563,7 +563,7 @@ def check_C12(chk, tier):
                 for eq in (0, 1):
                     for n, pat in ((1, 1), (2, 15), (3, 511), (3, 0b110111011), (3, 0b111011101)):
                         if cplx and n == 3 and q and pat != 511: continue
-                        cs.append(xcase(n, pat, storage=st, trans=tr, equil=eq, symcols=0, cond=1, growth=1, tune="t122" if st else "t212"))
+                        cs.append(xcase(n, pat, storage=st, trans=tr, equil=eq, symcols=0, cond=0 if cplx else 1, growth=1, tune="t122" if st else "t212"))   # complex: the estimator's sqrt atoms make even concrete runs solver-bound
                     if not cplx and not q: cs.append(xcase(2, 0b1101, storage=st, trans=tr, equil=eq, symcols=2, cond=1, growth=1)); cs.append(xcase(2, 0b1011, storage=st, trans=tr, symcols=1, cond=1))
         for pat in (C.all_patterns(2, 2) if not cplx else [15, 7]): cs.append(xcase(2, pat, growth=1, umode=0 if cplx else 1, symcols=-1 if not cplx else 0))      # singular and nonsingular growth, symbolic
         if not cplx:
